@@ -1,5 +1,6 @@
 import RreModel.Proto
 import RreModel.C18.Spec
+import RreModel.C18.Extra
 /-
 Driver for C18 (format: see harness/src/bin/c18.rs).
   case := [L|G] op op ...     ops: c:M d:M x:M:all|none|s[,K~pat]* r:M:rule t:M:tmpl i:TO:FROM:TY:pat[:re]
@@ -110,8 +111,64 @@ def parseImport (s : String) : Option ImportDecl :=
     pure ⟨a, ty, p, re⟩
   | _ => none
 
+def showVal : Option Validation → String
+  | none => "E"
+  | some v =>
+    if v.valid && v.errors == 0 && v.unused < 10 && v.reexp < 10 then s!"{v.unused}{v.reexp}{if v.empty then 1 else 0}"
+    else s!"{if v.valid then 1 else 0}.{v.errors}.{v.unused}.{v.reexp}.{if v.empty then 1 else 0}"
+def parseVal (s : String) : Option (Option Validation) :=
+  if s = "E" then some none else
+  match s.splitOn "." with
+  | [a, b, c, d, e] => do
+    pure (some { valid := a = "1", errors := ← b.toNat?, unused := ← c.toNat?, reexp := ← d.toNat?, empty := e = "1" })
+  | [t] =>
+    match t.toList with
+    | [c, d, e] => do
+      pure (some { valid := true, errors := 0, unused := ← (String.singleton c).toNat?, reexp := ← (String.singleton d).toNat?, empty := e = '1' })
+    | _ => none
+  | _ => none
+
+/-- extra := mods!dbg!stats!vall(/name!deps!val)*  — the three flags are `=` iff get_import_graph_debug, get_stats and
+validate_all_modules show what get_import_graph / get_module / validate_module show in the SAME snapshot -/
+def showExtra (U : List String) (s : Mgr) : String :=
+  let e := extraOf U s
+  let bits := String.ofList (U.map fun n => if n ∈ e.mods then '1' else '0')
+  let other := sortStrs (e.mods.filter fun n => !(n ∈ U))
+  bits ++ (if other.isEmpty then "" else s!"!===!{listOrDash other}!{e.mods.length}")
+    ++ String.join ((e.deps.zip e.vals).map fun (d, v) =>
+    let ds := match d.2 with | some l => listOrDash (sortStrs l) | none => "E"
+    if ds = "-" && v.2.isNone then "/" else s!"/{ds}!{showVal v.2}")
+
+/-- `none` = unparsable; the flags are returned separately -/
+def parseExtra (U : List String) (s : String) : Option (Extra × List String) :=
+  match s.splitOn "/" with
+  | hd :: blocks =>
+    let hdr := hd.splitOn "!"
+    match hdr with
+    | bits :: fm => do
+      let (flags, more) := match fm with | f :: m => (f, m) | [] => ("===", [])
+      let bs ← blocks.mapM fun b =>
+        match b.splitOn "!" with
+        | [d, v] => do pure ((if d = "E" then none else some (parseList d)), ← parseVal v)
+        | [""] => some (some [], none)
+        | _ => none
+      if bs.length ≠ U.length || bits.length ≠ U.length then none else
+      let (f1, f2, f3) ← match flags.toList with | [a, b, c] => some (a, b, c) | _ => none
+      -- names listed by list_modules outside the case's names / a listing longer than its set of names
+      let (other, total) ← match more with
+        | [] => some ([], none)
+        | [o, n] => n.toNat?.map fun n => (parseList o, some n)
+        | _ => none
+      let mods := ((U.zip bits.toList).filterMap fun (n, c) => if c = '1' then some n else none) ++ other
+      let mods := match total with | some n => mods ++ List.replicate (n - mods.length) "?" | none => mods
+      pure ({ mods := mods, deps := (U.zip bs).map (fun (n, b) => (n, b.1)), vals := (U.zip bs).map (fun (n, b) => (n, b.2)) },
+            (if f1 = '=' then [] else ["import_graph_debug_twin"]) ++ (if f2 = '=' then [] else ["get_stats_twin"])
+              ++ (if f3 = '=' then [] else ["validate_all_twin"]))
+    | _ => none
+  | _ => none
+
 /-- the model's snapshot, printed exactly like the harness prints the implementation's -/
-def showSnap (U R T : List String) (s : Mgr) : String :=
+def showSnap (U R T : List String) (s : Mgr) (withExtra : Bool := true) : String :=
   let keys := sortStrs (s.graph.map (·.1))
   let g := "g" ++ String.join (keys.map fun k => s!"!{k}>{",".intercalate (sortStrs (succs s.graph k))}")
   let blocks := U.map fun name =>
@@ -124,7 +181,7 @@ def showSnap (U R T : List String) (s : Mgr) : String :=
     | some m =>
       s!"/{name}!1!{listOrDash (sortStrs m.rules)}!{listOrDash (sortStrs m.templates)}!{showExports m.exports}!{listOrDash (m.imports.map showImport)}!{vis}!{tvis}!{listing}"
     | none => s!"/{name}!0!-!-!-!-!{vis}!{tvis}!{listing}"
-  g ++ String.join blocks
+  g ++ String.join blocks ++ (if withExtra then "#" ++ showExtra U s else "")
 
 def modelFull (U R T : List String) (tailOnly : Bool) (ops : List Op) : String :=
   let n := ops.length
@@ -132,7 +189,7 @@ def modelFull (U R T : List String) (tailOnly : Bool) (ops : List Op) : String :
     | [] => []
     | op :: rest =>
       let (s', r) := step s op
-      (if tailOnly && i + 2 < n then showRes r else showRes r ++ "/" ++ showSnap U R T s') :: go (i + 1) s' rest
+      (if tailOnly && i + 2 < n then showRes r else showRes r ++ "/" ++ showSnap U R T s' (!tailOnly || i + 1 == n)) :: go (i + 1) s' rest
   let steps := go 0 init ops
   if steps.isEmpty then "-" else ";".intercalate steps
 
@@ -204,13 +261,24 @@ def parseSnap (U R T : List String) (s : String) : Option Obs :=
       some o
   | _ => none
 
-def parseStep (U R T : List String) (s : String) : Option (Res × Option Obs) :=
-  match s.splitOn "/" with
-  | [r] => (parseRes r).map (fun r => (r, none))
-  | r :: rest => do
-    let r ← parseRes r
-    let o ← parseSnap U R T ("/".intercalate rest)
-    pure (r, some o)
+def parseStep (U R T : List String) (s : String) : Option (Res × Option (Obs × Option (Extra × List String))) :=
+  match s.splitOn "#" with
+  | [s] =>
+    match s.splitOn "/" with
+    | [r] => (parseRes r).map (fun r => (r, none))
+    | r :: rest => do
+      let r ← parseRes r
+      let o ← parseSnap U R T ("/".intercalate rest)
+      pure (r, some (o, none))
+    | _ => none
+  | [s, x] =>
+    match s.splitOn "/" with
+    | r :: rest => do
+      let r ← parseRes r
+      let o ← parseSnap U R T ("/".intercalate rest)
+      let ef ← parseExtra U x
+      pure (r, some (o, some ef))
+    | _ => none
   | _ => none
 
 /-- name of the first violated clause of `snapOk` -/
@@ -237,6 +305,7 @@ def stepClause (o : Obs) (op : Op) (r : Res) (o' : Obs) : Option String :=
 
 structure OAcc where
   prev : Option Obs
+  prevX : Option Extra := none
   tags : List String := []
 
 def addTag (a : OAcc) (t : String) : OAcc := if t ∈ a.tags then a else { a with tags := a.tags ++ [t] }
@@ -245,7 +314,19 @@ def importedVisible (o : Obs) : Bool :=
   o.vis.any fun q => q.2 == some true &&
     (match aget q.1.2 o.st.modules with | some m => !(q.1.1 ∈ m.rules) | none => false)
 
-def oracleRun (U : List String) : Nat → OAcc → List Op → List (Res × Option Obs) → String
+/-- clauses over the extra observations: twins, `extraOk`, and a refused operation changes none of them -/
+def extraFail (U : List String) (a : OAcc) (r : Res) (o' : Obs) (e : Extra) (flags : List String) : Option String :=
+  match flags with
+  | f :: _ => some f
+  | [] =>
+    match (if extraOk U o'.st e then none else (extraClause U o'.st e).orElse (fun _ => some "extra")) with
+    | some c => some c
+    | none =>
+      match a.prevX with
+      | some x => if r != .ok && x != e then some "refused_changes_queries" else none
+      | none => none
+
+def oracleRun (U : List String) : Nat → OAcc → List Op → List (Res × Option (Obs × Option (Extra × List String))) → String
   | _, a, [], [] => joinSp ("ok" :: a.tags)
   | i, a, op :: ops, (r, o'?) :: rest =>
     let a := match op, r with
@@ -256,9 +337,10 @@ def oracleRun (U : List String) : Nat → OAcc → List Op → List (Res × Opti
       | .create _, .ok => if "delete_ok" ∈ a.tags then addTag a "create_after_delete" else a
       | _, _ => a
     match o'? with
-    | none => oracleRun U (i + 1) { a with prev := none } ops rest
-    | some o' =>
-      match snapClause U o' with
+    | none => oracleRun U (i + 1) { a with prev := none, prevX := none } ops rest
+    | some (o', exf) =>
+      let ex : Extra := match exf with | some (e, _) => e | none => { mods := [], deps := [], vals := [] }
+      match (snapClause U o').orElse (fun _ => match exf with | some (e, flags) => extraFail U a r o' e flags | none => none) with
       | some c => s!"fail {c}@{i}"
       | none =>
         let bad := match a.prev with
@@ -274,7 +356,9 @@ def oracleRun (U : List String) : Nat → OAcc → List Op → List (Res × Opti
           let a := if o'.st.graph.any (fun p => p.2.length ≥ 1) && ("import_ok" ∈ a.tags) &&
                       (("refused_cycle" ∈ a.tags) || ("delete_imported" ∈ a.tags) || ("imported_visible" ∈ a.tags))
                    then addTag a "nontrivial" else a
-          oracleRun U (i + 1) { a with prev := some o' } ops rest
+          let a := if ex.deps.any (fun q => match q.2 with | some l => l.length ≥ 2 | none => false) then addTag a "deps_transitive" else a
+          let a := if ex.vals.any (fun q => match q.2 with | some v => v.unused + v.reexp ≥ 1 | none => false) then addTag a "validate_warns" else a
+          oracleRun U (i + 1) { a with prev := some o', prevX := exf.map (·.1) } ops rest
   | i, _, _, _ => s!"fail length@{i}"
 
 def oracleLine (line : String) : String :=
@@ -287,14 +371,20 @@ def oracleLine (line : String) : String :=
       if mode = .grl then
         if o.startsWith "e:" then (if (parseRes o).isSome then s!"ok grl grl_refused" else "fail grl_parse_error@0")
         else match parseStep U R T o with
-          | some (.ok, some ob) =>
+          | some (.ok, some (ob, some (ex, flags))) =>
             -- the front-end must have declared exactly the imports written in the text, in order
             let declsOk := ob.st.modules.all fun p =>
               p.2.imports == ops.filterMap fun
                 | .importFrom to src ty pat re => if to = p.1 then some ⟨src, ty, pat, re⟩ else none
                 | _ => none
-            if !declsOk then "fail grl_declarations@0" else
-            (match snapClause U ob with
+            -- ... and assigned every rule of the text to the module named by its `;; MODULE:` comment (if it exists)
+            let rulesOk := ob.st.modules.all fun p =>
+              sameSet p.2.rules (ops.filterMap fun
+                | .addRule m r => if m = p.1 then some r else none
+                | _ => none)
+            if !declsOk then "fail grl_declarations@0"
+            else if !rulesOk then "fail grl_rule_assignment@0" else
+            (match (snapClause U ob).orElse (fun _ => extraFail U { prev := none } .ok ob ex flags) with
              | some c => s!"fail {c}@0"
              | none => joinSp (["ok", "grl"] ++ (if ob.st.graph.any (fun p => p.2.length ≥ 1) then ["grl_imports", "nontrivial"] else [])))
           | _ => "bad-input"
@@ -303,7 +393,7 @@ def oracleLine (line : String) : String :=
         | some steps =>
           -- in full mode the observation before the first operation is that of a fresh manager
           let start : Option Obs := if mode = .full then some (obsOf U R T init) else none
-          oracleRun U 0 { prev := start } ops steps
+          oracleRun U 0 { prev := start, prevX := if mode = .full then some (extraOf U init) else none } ops steps
         | none => "bad-input"
     | none => "bad-input"
   | _ => "bad-input"
